@@ -102,4 +102,138 @@ theorem sum_map_single {α : Type} (g : α → Nat) (a : α) : ∀ (l : List α)
       have hc : g c = 0 := hz c (List.mem_cons_self ..) (by rintro rfl; exact hnd.1 hm)
       omega
 
+theorem nodup_flatMap_of_key {α β : Type} (F : α → List β) (key : β → α) : ∀ (l : List α), l.Nodup →
+    (∀ a ∈ l, (F a).Nodup) → (∀ a, ∀ b ∈ F a, key b = a) → (l.flatMap F).Nodup
+  | [], _, _, _ => by simp
+  | c :: l, hnd, hF, hk => by
+    simp only [List.nodup_cons] at hnd
+    simp only [List.flatMap_cons]
+    rw [List.nodup_append]
+    refine ⟨hF c (List.mem_cons_self ..), nodup_flatMap_of_key F key l hnd.2
+      (fun a ha => hF a (List.mem_cons_of_mem _ ha)) hk, ?_⟩
+    intro b hb b' hb' heq
+    obtain ⟨a', ha', hb''⟩ := List.mem_flatMap.mp hb'
+    have h1 := hk c b hb
+    have h2 := hk a' b' hb''
+    rw [heq, h2] at h1
+    rw [h1] at ha'
+    exact hnd.1 ha'
+
+theorem nodup_filterMap_names (o : ObjId) (c : Name → DelegInfo → Bool) : ∀ (l : List (Name × DelegInfo)),
+    (l.map (·.1)).Nodup →
+    (l.filterMap fun (nd : Name × DelegInfo) => if c nd.1 nd.2 then some (o, nd.1) else none).Nodup
+  | [], _ => by simp
+  | (n, d) :: l, hnd => by
+    simp only [List.map_cons, List.nodup_cons] at hnd
+    rw [List.filterMap_cons]
+    have ih := nodup_filterMap_names o c l hnd.2
+    split
+    · exact ih
+    · rename_i b hb
+      split at hb
+      · simp only [Option.some.injEq] at hb
+        subst hb
+        rw [List.nodup_cons]
+        refine ⟨?_, ih⟩
+        intro hmem
+        obtain ⟨⟨n', d'⟩, hm', hs⟩ := List.mem_filterMap.mp hmem
+        split at hs
+        · simp only [Option.some.injEq, Prod.mk.injEq, true_and] at hs
+          subst hs
+          exact hnd.1 (List.mem_map_of_mem (f := (·.1)) hm')
+        · simp at hs
+      · simp at hb
+
+theorem forwarders_nodup {p : Pool} (hwf : PoolWF p) (x : ObjId) (t : Name) : (forwarders p x t).Nodup := by
+  unfold forwarders
+  refine nodup_flatMap_of_key _ (·.1) _ List.nodup_range (fun o _ => ?_) (fun o b hb => ?_)
+  · have := nodup_filterMap_names o
+      (fun n d => decide ((p.obj o).fwd n = some (some x) ∧ listenedName (p.obj o).cls.pfx n d = t))
+      _ (deferNames_nodup _ (hwf o))
+    simpa using this
+  · obtain ⟨⟨n, d⟩, _, hs⟩ := List.mem_filterMap.mp hb
+    simp only [] at hs
+    by_cases hc : (p.obj o).fwd n = some (some x) ∧ listenedName (p.obj o).cls.pfx n d = t
+    · rw [if_pos hc] at hs
+      cases hs; rfl
+    · rw [if_neg hc] at hs
+      cases hs
+
+/-- The hooking graph is acyclic: some rank decreases along every hook. -/
+def Acyclic (p : Pool) (rank : ObjId → Nat) : Prop :=
+  ∀ o n h, (p.obj o).fwd n = some (some h) → rank h < rank o
+
+/-- With an acyclic delegate graph the hooking graph is acyclic (a forwarder is hooked on the current
+delegate or on nothing). -/
+theorem acyclic_of_deleg {p : Pool} (H : HookInv p) (rank : ObjId → Nat)
+    (h : ∀ o y, (p.obj o).deleg = some y → rank y < rank o) : Acyclic p rank :=
+  fun o n y hf => h o y (H o n y hf)
+
+theorem notify_tail_rank {p : Pool} {rank : ObjId → Nat} (hac : Acyclic p rank) {a b : Val} :
+    ∀ (f : Nat) (x : ObjId) (t : Name) (e : Event),
+      e ∈ (forwarders p x t).flatMap (fun on => notify p f on.1 on.2 a b) →
+      rank x < rank e.obj ∧ ∃ z, (p.obj e.obj).fwd e.name = some (some z) ∧ rank x ≤ rank z := by
+  intro f
+  induction f with
+  | zero =>
+    intro x t e h
+    obtain ⟨on, _, he⟩ := List.mem_flatMap.mp h
+    simp [notify] at he
+  | succ f ih =>
+    intro x t e h
+    obtain ⟨⟨o', n'⟩, hon, he⟩ := List.mem_flatMap.mp h
+    obtain ⟨_, d, _, hf, _⟩ := mem_forwarders.mp hon
+    have hr := hac o' n' x hf
+    rw [notify_succ] at he
+    rcases List.mem_cons.mp he with rfl | he
+    · exact ⟨hr, x, hf, Nat.le_refl _⟩
+    · obtain ⟨h1, z, h2, h3⟩ := ih o' n' e he
+      exact ⟨by omega, z, h2, by omega⟩
+
+/-- **Exactly once**: in an acyclic pool, the cascade started on the target of a hooked forwarder
+contains the event of the deferring attribute exactly once. -/
+theorem notify_count_one {p : Pool} (hwf : PoolWF p) {rank : ObjId → Nat} (hac : Acyclic p rank)
+    {o : ObjId} {n : Name} {y : ObjId} {t : Name} (h : (o, n) ∈ forwarders p y t) (f : Nat) (a b : Val) :
+    (notify p (f + 2) y t a b).countP (fun e => decide (e.obj = o ∧ e.name = n)) = 1 := by
+  obtain ⟨_, d, _, hf, _⟩ := mem_forwarders.mp h
+  have hry := hac o n y hf
+  rw [notify_succ, List.countP_cons, List.countP_flatMap]
+  have hhead : (decide ((⟨y, t, a, b⟩ : Event).obj = o ∧ (⟨y, t, a, b⟩ : Event).name = n)) = false := by
+    simp only [decide_eq_false_iff_not]
+    rintro ⟨rfl, _⟩
+    omega
+  rw [hhead]
+  simp only [Bool.false_eq_true, if_false, Nat.add_zero]
+  rw [sum_map_single _ (o, n) _ (forwarders_nodup hwf y t) h]
+  · -- the sub-cascade of (o, n) itself: its head, and nothing else
+    simp only [Function.comp]
+    rw [notify_succ, List.countP_cons]
+    have h0 : List.countP (fun e => decide (e.obj = o ∧ e.name = n))
+        ((forwarders p o n).flatMap fun on => notify p f on.1 on.2 a b) = 0 := by
+      rw [List.countP_eq_zero]
+      intro e he
+      obtain ⟨h1, _⟩ := notify_tail_rank hac f o n e he
+      simp only [decide_eq_true_eq]
+      rintro ⟨rfl, _⟩
+      omega
+    rw [h0]; simp
+  · -- the sub-cascades of the other forwarders never reach (o, n)
+    rintro ⟨o', n'⟩ hon hne
+    simp only [Function.comp]
+    rw [List.countP_eq_zero]
+    intro e he
+    simp only [decide_eq_true_eq]
+    rintro ⟨ho, hn⟩
+    obtain ⟨_, d', _, hf', _⟩ := mem_forwarders.mp hon
+    have hr' := hac o' n' y hf'
+    rw [notify_succ] at he
+    rcases List.mem_cons.mp he with rfl | he
+    · simp only at ho hn
+      exact hne (by rw [ho, hn])
+    · obtain ⟨_, z, h2, h3⟩ := notify_tail_rank hac f o' n' e he
+      rw [ho, hn, hf] at h2
+      simp only [Option.some.injEq] at h2
+      subst h2
+      omega
+
 end TraitsVerif.Model.Deleg
